@@ -23,9 +23,8 @@ from . import common
 
 PID = "C07"
 PROPS = "C07a"
-OWN_V = ["Ops/Slice.v", "Ops/Deriv.v", "Ops/Deriv2.v", "Ops/DerivSpec.v", "Ops/Causal.v", "Ops/CausalProofs.v",
-         "Ops/Axis.v", "Ops/DerivND.v", "Corr/CheckC07a.v", "Props/C07a.py"]
-OWN_V = [f for f in OWN_V if f.endswith(".v")] + ["Props/C07a.v"]
+OWN_V = ["Ops/Slice.v", "Ops/Deriv.v", "Ops/Deriv2.v", "Ops/DerivSpec.v", "Ops/DerivStencil.v", "Ops/Causal.v",
+         "Ops/DerivND.v", "Corr/CheckC07a.v", "Props/C07a.v"]
 
 # Genuine defects of the unchanged tree, decided by behaviour (see report):
 PROPOSED_KNOWN = [
@@ -347,6 +346,7 @@ def run(R, tier):
     fails.pop(CANARY)
     known_ids = {k["id"] for k in common.load_known() if k.get("property") == PID}
     nviol = 0
+    perfam = {}
     discharged = 0
     nontriv = set()
     famcount = {}
@@ -362,7 +362,7 @@ def run(R, tier):
             elif p["kind"] != "centered" and len(p["axes"]) > 1 and 4 not in codes and laplacian_coded_like_defect(p, A):
                 R.known_finding(PROPOSED_KNOWN[0]["id"], "Laplacian kind=%s is not forwarded to SecondDerivative on axes[1:] "
                                 "(centred stencil used there)" % "forward|backward")
-                codes -= {1, 3}
+                continue
             else:
                 codes.discard(4)
         if not codes:
@@ -378,7 +378,11 @@ def run(R, tier):
             obs = float(Mx[i, j]) if 0 <= i < Mx.shape[0] and 0 <= j < Mx.shape[1] else None
             what = {1: "forward matrix differs from the documented formula", 2: "forward differs from the code-shaped model (model out of date or behaviour changed)",
                     3: "adjoint matrix differs from the code-shaped adjoint / transposed documented matrix"}.get(code, "code %d" % code)
-            rp = {"family": fam, "params": p, "mode": mode, "unit_index": int(j), "out_index": int(i),
+            perfam[fam] = perfam.get(fam, 0) + 1
+            if perfam[fam] > 4:            # a few minimal replays per family are enough
+                nviol += 1
+                break
+            rp = {"part": "c07a", "family": fam, "params": p, "mode": mode, "unit_index": int(j), "out_index": int(i),
                   "documented": str(doc), "observed": obs, "check_code": code}
             R.violation("%s: %s %s: %s(e_%d)[%d] = %r, documented %s" % (what, fam, p, mode, j, i, obs, doc), rp)
             nviol += 1
@@ -398,7 +402,7 @@ def main(tier):
     res = run(R, tier)
     R.cov.update(
         obligations=len(res["theorems"]) + res["configs"], discharged=len(res["theorems"]) + res["discharged"],
-        checker_cmd="coqc 8.16.1: Ops/Slice Deriv Deriv2 DerivSpec Causal*.v, Corr/CheckC07a.v, Props/C07a.v (Print Assumptions) + coqc .work/C07a/c07a_*.v (vm_compute)",
+        checker_cmd="coqc 8.16.1: Ops/Slice Deriv Deriv2 DerivSpec DerivStencil Causal DerivND.v, Corr/CheckC07a.v, Props/C07a.v (Print Assumptions) + coqc .work/C07a/c07a_*.v (vm_compute)",
         theorems=res["theorems"], axioms_reported=res["axioms"], evaluations=res["evaluations"],
         distinct_nontrivial=res["distinct_nontrivial"],
         rule="one case per (family, constructor arguments); evaluations = unit-vector applications used to extract forward and adjoint "
